@@ -26,6 +26,14 @@ Sensitivity (quick tier, seed 1, scratch copies; all caught = exit 1):
   * ``parts.append(s[-3:])`` -> ``s[-4:]`` (``s = s[:-3]`` kept) ............ caught (C46.number_grouping/readback)
   * snapshot 59274db ``friendly_number`` (F8) ............................ caught (replay F08 + search)
   * snapshot 59274db ``(date - now).seconds < 60`` (F9) .................. caught (replay F09 + search)
+  * ``CSVLocale.translate`` memoised by the singular message only (plural_message and count ignored: once "1 second
+    ago" was rendered on a Locale, every later date in seconds reads "1 second ago") ... caught at seeds 1,2,3
+    (C46.relative_number inside a ``history`` case) by rendering *sequences* on ONE Locale object: every order of
+    {1, 5} x {second, minute, hour} on a fresh locale (720 permutations), singular->plural->singular and
+    plural->singular->plural per unit x locale kind (fresh en / en_US / fr_FR / zh_CN, shared get("en_US")) x input
+    form with absolute formats, future dates and friendly_number calls in between, plus Hypothesis-generated
+    sequences; each result judged independently by the single-call oracle (ninth-round "state carried over"
+    mutation testing; before, only the shared en_US instance carried history, by accident)
   * future clock-skew window ``seconds=60`` -> ``seconds=3600`` ........... caught (C46.future_as_past)
   * numeric timestamps converted with ``fromtimestamp(date)`` (process-local naive time labelled UTC) instead of
     ``fromtimestamp(date, datetime.timezone.utc)`` ... caught (C46.future_as_past / C46.relative_number) since the
@@ -177,7 +185,7 @@ PROCESS_TZS = ["UTC", "AAA+5", "BBB-9:30", "CCC+12", "DDD-14", "EEE+0:45", "EST5
 BOUNDARIES_S = [50, 60, 3000, 3600, 86400]  # phrase boundaries (and the unit sizes) in seconds
 
 
-def run_date(ctx, case):
+def run_date(ctx, case, loc=None, account=True):
     _, now_us, offset_us, form, tzmin, gmt_offset, relative, shorter, full_format, code = case[:10]
     process_tz = case[10] if len(case) > 10 else "UTC"  # older replays carry no process time zone
     now = EPOCH + real_datetime.timedelta(microseconds=now_us)
@@ -197,7 +205,8 @@ def run_date(ctx, case):
         tz = real_datetime.timezone(real_datetime.timedelta(minutes=tzmin))
         date = (EPOCH + real_datetime.timedelta(microseconds=date_us)).astimezone(tz)
     e_us = now_us - date_us  # > 0: past
-    loc = get_locale(code)
+    if loc is None:
+        loc = get_locale(code)
     with process_timezone(process_tz):
         out, now_calls = call_format_date(loc, now, date, gmt_offset=gmt_offset, relative=relative, shorter=shorter,
                                           full_format=full_format)
@@ -253,7 +262,66 @@ def run_date(ctx, case):
             ctx.fail("C46.unparsed_relative_phrase", {"case": case, "got": out})
         if "yesterday" in out:
             labels.add("yesterday")
-    ctx.note(case, labels, nontrivial=near or e_us < 0)
+    if account:
+        ctx.note(case, labels, nontrivial=near or e_us < 0)
+    return labels, (near or e_us < 0)
+
+
+# ----------------------------------------------------------------------------- histories on ONE Locale object
+# A Locale is long-lived (tornado.locale.get() hands out cached instances) and could memoise translations.  A
+# history case renders a *sequence* of dates (and numbers) on the same Locale object; every result is judged by
+# the same oracle as a single call, independently of what was rendered before.
+HIST_STEPS = [(1, "second"), (5, "second"), (1, "minute"), (5, "minute"), (1, "hour"), (5, "hour")]
+HIST_EXTRA_OFFSETS_S = [0, -30, -90, 86400 + 3600, 3 * 86400, 40 * 86400, 400 * 86400]
+
+
+def history_locale(kind):
+    how, code = kind.split(":")
+    if how == "shared":
+        return tornado.locale.get(code), code
+    return tornado.locale.CSVLocale(code, {}), code
+
+
+def history_cases():
+    import itertools
+    now_us = 1700000000 * US + 250000
+    # every order of (count 1, count 5) x (second, minute, hour) on a fresh English locale
+    for perm in itertools.permutations(range(len(HIST_STEPS))):
+        yield ("history", "fresh:en", now_us, "aware_utc", [("date", HIST_STEPS[i][0] * UNIT_US[HIST_STEPS[i][1]]) for i in perm])
+    # singular-then-plural and plural-then-singular for every unit, every locale kind and input form, with absolute
+    # formats, future dates and numbers in between
+    for kind in ("fresh:en", "fresh:en_US", "fresh:fr_FR", "fresh:zh_CN", "shared:en_US"):
+        for form in ("aware_utc", "int", "naive"):
+            for unit in ("second", "minute", "hour"):
+                one, many = ("date", UNIT_US[unit]), ("date", 7 * UNIT_US[unit])
+                yield ("history", kind, now_us, form, [one, many, one])
+                yield ("history", kind, now_us, form, [many, one, many])
+                for extra in HIST_EXTRA_OFFSETS_S:
+                    yield ("history", kind, now_us, form, [one, ("date", extra * US), ("num", -1234567), many, ("num", 1), one])
+
+
+def run_history(ctx, case):
+    _, kind, now_us, form, steps = case
+    loc, code = history_locale(kind)
+    labels = {"hist_locale_" + kind.replace(":", "_"), "hist_len_%s" % (len(steps) if len(steps) < 6 else "6plus")}
+    counts = []
+    for what, arg in steps:
+        if what == "num":
+            out = loc.friendly_number(arg)
+            if code in ("en", "en_US") and (out.replace(",", "") != str(arg) or not NUM_RE.match(out)):
+                ctx.fail("C46.number_grouping", {"value": arg, "locale": code, "got": out, "history": case})
+            continue
+        step_case = ("date", now_us, arg, form, 0, 0, True, False, False, code, "UTC")
+        sub, _ = run_date(ctx, step_case, loc=loc, account=False)
+        labels |= {x for x in sub if x.startswith("phrase_")}
+        if 0 < arg < 86400 * US:
+            n = arg // (UNIT_US["hour"] if arg >= 3000 * US else UNIT_US["minute"] if arg >= 50 * US else US)
+            counts.append(1 if n == 1 else 2)
+    if 1 in counts and 2 in counts:
+        labels.add("hist_singular_before_plural" if counts.index(1) < counts.index(2) else "hist_plural_before_singular")
+    ctx.note(case, labels, nontrivial=len(steps) >= 2)
+
+
 
 
 now_s = st.one_of(
@@ -290,10 +358,27 @@ date_s = st.tuples(
     st.sampled_from(["UTC"] + PROCESS_TZS),
 )
 
-PARTS = {"num": run_num, "date": run_date}
+_hist_step_s = st.one_of(
+    st.tuples(st.just("date"), offset_s),
+    st.tuples(st.just("date"), st.sampled_from([1, 2, 7, 59]).flatmap(
+        lambda n: st.sampled_from([n * US, n * 60 * US, n * 3600 * US]))),
+    st.tuples(st.just("date"), st.sampled_from([US, 60 * US, 3600 * US])),
+    st.tuples(st.just("num"), num_value_s),
+)
+history_s = st.tuples(
+    st.just("history"),
+    st.sampled_from(["fresh:en", "fresh:en_US", "fresh:fr_FR", "shared:en_US"]),
+    now_s,
+    st.sampled_from(["aware_utc", "aware_utc", "naive", "int", "float"]),
+    st.lists(_hist_step_s, min_size=2, max_size=6),
+)
+
+PARTS = {"num": run_num, "date": run_date, "history": run_history, "history_random": run_history}
 
 
 def main(ctx):
     ctx.run_replays(PARTS)
+    ctx.enumerate(history_cases(), run_history, name="history")
+    ctx.explore(history_s, run_history, ctx.n(600, 60000), name="history_random")
     ctx.explore(num_s, run_num, ctx.n(2500, 200000), name="num")
     ctx.explore(date_s, run_date, ctx.n(5000, 400000), name="date")
